@@ -5,9 +5,8 @@
    delta:   |re J_ij - gr'(0)| <= (|delta|/2) sup|gr''|,   |im J_ij - gi'(0)| <= (|delta|/2) sup|gi''|.
    (For a holomorphic f_i, gr'(0) + i gi'(0) is the complex partial derivative.) *)
 From Coq Require Import List Arith Lia Reals Lra Psatz.
-From Coquelicot Require Import Coquelicot.
 From OV Require Import Base.Panic Base.Arith Model.Complex Model.Vector Model.Matrix Model.Newton
-  Proofs.Matrix Proofs.NewtonLoop Proofs.Newton Proofs.NewtonJac Proofs.Newton2Jac
+  Proofs.Matrix Proofs.NewtonLoop Proofs.Newton Proofs.NewtonJac Proofs.Newton2Deriv Proofs.Newton2Jac
   Proofs.SolveBase Proofs.SolveR Proofs.SolveC Proofs.Newton2Inst.
 Import ListNotations.
 Local Open Scope R_scope.
@@ -93,8 +92,8 @@ Proof.
   - apply (fl_div_total ACR ACR_FieldLaws). apply NCR_emb. lra.
   - exists J, evs. split; [exact EJ|]. split; [rewrite Rw; lia|]. split; [|split; [|split; [|split; [|split]]]].
     + intros t _. cbn. eexists. split; [reflexivity|]. cbn. split; ring.
-    + intros t. apply is_derive_Reals. auto_derive; [exact I|ring].
-    + intros t. apply is_derive_Reals. auto_derive; [exact I|ring].
+    + intros t. dpoly.
+    + intros t. dpoly.
     + rewrite Rabs_right; lra.
     + intros t. apply derivable_pt_lim_const.
     + rewrite Rabs_R0. lra.
